@@ -143,4 +143,79 @@ StationAllowedByFraction(v, closed, dim, l2, o) ==
 LawCum(v) == LET c == Cum(v) IN c[1] = 0 /\ \A k \in 1..(Len(v) - 1) : c[k] < c[k + 1]
 LawPosTotal(v, l2, e) == LET p == PosClass(v, l2, e) IN
     p.kind = "none" <=> (l2 < 0 \/ l2 > 2 * TotalLen(v) \/ (l2 = 0 /\ e < 0) \/ (l2 = 2 * TotalLen(v) /\ e > 0))
+
+\* ================================================================= C04: portions
+(* A derived curve is the stretch of a root curve v (closed iff rc) travelled *)
+(* from root half-position a for T half-units in sense dir (+1 / -1).  Every  *)
+(* curve in a history of between / split / trim / reversed applied to earlier *)
+(* results is of this form, with all quantities on the half-lattice.          *)
+RootLen2(v) == 2 * TotalLen(v)
+WrapPos(v, rc, p2) == IF rc THEN p2 % RootLen2(v) ELSE p2
+RootPoint(v, rc, p2) == PointAt(v, WrapPos(v, rc, p2))
+RPtEq(p, q) == VScale(q[2], p[1]) = VScale(p[2], q[1])
+DPos(d, l2) == d.a + d.dir * l2
+DPoint(v, rc, d, l2) == RootPoint(v, rc, DPos(d, l2))
+DClosed(v, rc, d) == RPtEq(DPoint(v, rc, d, 0), DPoint(v, rc, d, d.T))
+WholeRoot(v) == [a |-> 0, T |-> RootLen2(v), dir |-> 1]
+
+\* a request (l0, l1) on derived curve d: the resulting derived curve, or NoCurve
+NoCurve == [a |-> 0, T |-> 0, dir |-> 0]
+DBetween(v, rc, d, l0, l1) ==
+    IF l0 < 0 \/ l1 < 0 \/ l0 > d.T \/ l1 > d.T THEN NoCurve
+    ELSE IF l1 > l0 THEN [a |-> DPos(d, l0), T |-> l1 - l0, dir |-> d.dir]
+    ELSE IF l1 < l0 /\ DClosed(v, rc, d) /\ d.T - l0 + l1 > 0 THEN [a |-> DPos(d, l0), T |-> d.T - l0 + l1, dir |-> d.dir]
+    ELSE NoCurve
+DReversed(d) == [a |-> DPos(d, d.T), T |-> d.T, dir |-> -d.dir]
+
+\* by control: which piece (if any) must be returned; "free" when the control sits on a boundary
+DByControl(v, rc, d, a, b, c) ==
+    LET lo == Min2(a, b) hi == Max2(a, b) IN
+    IF c > d.T \/ c < 0 THEN [verdict |-> "none", piece |-> NoCurve]
+    ELSE IF c = lo \/ c = hi THEN [verdict |-> "free", piece |-> NoCurve]
+    ELSE IF lo < c /\ c < hi THEN [verdict |-> "piece", piece |-> DBetween(v, rc, d, lo, hi)]
+    ELSE [verdict |-> "piece", piece |-> DBetween(v, rc, d, hi, lo)]
+
+\* quantum for vertices of derived curves: all exact coordinates are multiples of 1/10
+QC == 640
+ExpQ(rp) == [a \in 1..3 |-> (rp[1][a] * QC) \div rp[2]]
+ExactQ(rp) == \A a \in 1..3 : (rp[1][a] * QC) % rp[2] = 0
+
+\* root vertices strictly inside the travel of d, as <<travel offset, vertex index>>
+DInterior(v, rc, d) ==
+    LET c == Cum(v) n == IF rc THEN Len(v) - 1 ELSE Len(v)
+        Off(k) == LET raw == d.dir * (2 * c[k] - d.a) IN IF rc THEN raw % RootLen2(v) ELSE raw IN
+    {<<Off(k), k>> : k \in {j \in 1..n : Off(j) > 0 /\ Off(j) < d.T}}
+
+SortPairs(S) == \* ascending by first component (offsets are distinct)
+    LET RECURSIVE Srt(_)
+        Srt(T) == IF T = {} THEN <<>> ELSE
+                  LET m == CHOOSE x \in T : \A y \in T : x[1] <= y[1] IN <<m>> \o Srt(T \ {m})
+    IN Srt(S)
+
+\* exact vertex list (quantised) that traces derived curve d
+DVerts(v, rc, d) ==
+    LET mid == SortPairs(DInterior(v, rc, d)) IN
+    <<ExpQ(DPoint(v, rc, d, 0))>> \o [j \in 1..Len(mid) |-> VScale(QC, v[mid[j][2]])] \o <<ExpQ(DPoint(v, rc, d, d.T))>>
+
+\* remove vertices that do not change the traced path: repeats and straight-through points
+PNear(p, q, t) == \A a \in 1..3 : AbsC(p[a] - q[a]) <= t
+Straight(p, q, r) ==  \* q lies between p and r on a straight line (with quantisation slack)
+    LET e1 == VSub(q, p) e2 == VSub(r, q) cr == VCross(e1, e2) t == 3 * (VNorm1(e1) + VNorm1(e2)) IN
+    /\ AbsC(cr[1]) <= t /\ AbsC(cr[2]) <= t /\ AbsC(cr[3]) <= t /\ VDot(e1, e2) > 0
+RECURSIVE CornersFrom(_, _, _)
+CornersFrom(w, k, acc) ==
+    IF k > Len(w) THEN acc
+    ELSE IF PNear(w[k], acc[Len(acc)], 2) /\ k < Len(w) THEN CornersFrom(w, k + 1, acc)
+    ELSE IF k < Len(w) /\ Straight(acc[Len(acc)], w[k], w[k + 1]) THEN CornersFrom(w, k + 1, acc)
+    ELSE CornersFrom(w, k + 1, Append(acc, w[k]))
+Corners(w) == IF Len(w) = 0 THEN <<>> ELSE CornersFrom(w, 2, <<w[1]>>)
+SamePath(w1, w2) == LET c1 == Corners(w1) c2 == Corners(w2) IN
+    Len(c1) = Len(c2) /\ \A k \in 1..Len(c1) : PNear(c1[k], c2[k], 3)
+
+\* does the observed piece o (fields verts, len, closed) realise derived curve d?
+PieceEndpoints(v, rc, d, o) == /\ Len(o.verts) >= 2
+                               /\ PNear(o.verts[1], ExpQ(DPoint(v, rc, d, 0)), 3)
+                               /\ PNear(o.verts[Len(o.verts)], ExpQ(DPoint(v, rc, d, d.T)), 3)
+PieceLength(d, o) == AbsC(2 * o.len - d.T * QC) <= 8
+PiecePath(v, rc, d, o) == SamePath(o.verts, DVerts(v, rc, d))
 =============================================================================
